@@ -35,14 +35,14 @@ def stress(ctx, mode, seed, callers, calls, features=()):
             rep = json.loads(line[7:])
     scenario = dict(mode=mode, seed=seed, callers=callers, calls=calls, features=list(features))
     if rc == 3 or (rep and rep.get("blocked")):
-        ctx.violation(f"C08/blocked:{mode}", f"hot_reload callers blocked (no progress, no CPU) in mode {mode} with {callers} callers",
+        ctx.violation(f"{ctx.prop}/blocked:{mode}", f"hot_reload callers blocked (no progress, no CPU) in mode {mode} with {callers} callers",
                       dict(scenario=scenario, report=rep, trace_file=out))
         return None
     if rc == 124:
-        ctx.violation(f"C08/timeout:{mode}", f"stress run in mode {mode} did not finish in 180 s", dict(scenario=scenario))
+        ctx.violation(f"{ctx.prop}/timeout:{mode}", f"stress run in mode {mode} did not finish in 180 s", dict(scenario=scenario))
         return None
     if rc != 0 or rep is None:
-        ctx.violation(f"C08/crash:{mode}", f"the child process died (exit status {rc}) in mode {mode}",
+        ctx.violation(f"{ctx.prop}/crash:{mode}", f"the child process died (exit status {rc}) in mode {mode}",
                       dict(scenario=scenario, stderr=se[-2000:]))
         return None
     return out, rep
